@@ -751,7 +751,7 @@ def run(tier, seed, work, repo, suspects=None, strict_suspects=None):
             shape = f"async={info['async']},concrete={info['concrete']},payload={any(e['payload'] for e in info['events'])},dynamic={info['dynamic']}"
             result['shapes'][shape] = result['shapes'].get(shape, 0) + 1
             fams = []
-            if x.get('suspect') or x['family'] == 'hier':
+            if x.get('suspect') or x['family'] == 'hier' or any(not sp['leaf'] for sp in info['storage']):
                 for ops in T.scn_edges(info, x['def']):
                     fams.append(('edges', ops))
                 if x.get('suspect'):
